@@ -495,11 +495,12 @@ class LogWrapper(BaseWrapper):
         log_state = gs.aux["log"]
         new_episode_return = log_state.episode_returns + reward
         new_episode_length = log_state.episode_lengths + 1
+        # Select instead of masking by multiplication: `inf * 0` is nan, which would poison every later episode
         log_state = log_state.replace(
-            episode_returns=new_episode_return * (1 - done),
-            episode_lengths=new_episode_length * (1 - done),
-            returned_episode_returns=log_state.returned_episode_returns * (1 - done) + new_episode_return * done,
-            returned_episode_lengths=log_state.returned_episode_lengths * (1 - done) + new_episode_length * done,
+            episode_returns=jnp.where(done, jnp.zeros_like(new_episode_return), new_episode_return),
+            episode_lengths=jnp.where(done, jnp.zeros_like(new_episode_length), new_episode_length),
+            returned_episode_returns=jnp.where(done, new_episode_return, log_state.returned_episode_returns),
+            returned_episode_lengths=jnp.where(done, new_episode_length, log_state.returned_episode_lengths),
             timestep=log_state.timestep + 1,
         )
         info["returned_episode_returns"] = log_state.returned_episode_returns
